@@ -99,6 +99,33 @@ MUTANTS = [
      'while (False or', ['malt.pyct.naming.Namer.new_symbol']),
     ('c11-namer-does-not-record', 'malt/pyct/naming.py', '    self.generated_names.add(new_name)', '    pass',
      ['malt.pyct.naming.Namer.new_symbol']),
+    ('c01-and-eager', 'malt/operators/logical.py', '''  a_val = a()
+  ### Implement your own operator here. ###
+  return _py_lazy_and(a_val, b)''', '''  a_val = a()
+  b_val = b()
+  return _py_lazy_and(a_val, lambda: b_val)''', ['malt.operators.logical.and_']),
+    ('c01-for-extra-test-before-body', 'malt/operators/control_flow.py', '''      for target in iter_:
+        body(target)
+        if not guarded_extra_test():
+          break''', '''      for target in iter_:
+        if not guarded_extra_test():
+          break
+        body(target)''', ['malt.operators.control_flow._py_for_stmt', 'malt.operators.control_flow.for_stmt']),
+    ('c01-while-tests-twice', 'malt/operators/control_flow.py', '''  while guarded_test():
+    body()''', '''  while guarded_test() and guarded_test():
+    body()''', ['malt.operators.control_flow._py_while_stmt', 'malt.operators.control_flow.while_stmt']),
+    ('c01-if-branches-swapped', 'malt/operators/control_flow.py', 'return body() if cond else orelse()',
+     'return orelse() if cond else body()', ['malt.operators.control_flow._py_if_stmt', 'malt.operators.control_flow.if_stmt']),
+    ('c01-ld-passes-undefined', 'malt/operators/variables.py', '''  if isinstance(v, Undefined):
+    return v.read()
+  return v''', '''  return v''', ['malt.operators.variables.ld']),
+    ('c01-ret-keeps-undefined-return', 'malt/operators/function_wrappers.py', '''    if isinstance(value, variables.UndefinedReturnValue):
+      return None''', '''    if did_return and isinstance(value, variables.UndefinedReturnValue):
+      return None''', ['malt.operators.function_wrappers.FunctionScope.ret']),
+    ('c01-ldu-swallows-everything', 'malt/operators/variables.py', 'except (KeyError, AttributeError, NameError):',
+     'except Exception:', ['malt.operators.variables.ldu']),
+    ('c01-not-eq-is-eq', 'malt/operators/logical.py', '  return not_(eq(a, b))', '  return eq(a, b)',
+     ['malt.operators.logical.not_eq']),
 ]
 
 DRIVER = r'''
